@@ -51,6 +51,7 @@ func runX(x *XCase) *XOut {
 	env.Net.Latency = x.Latency
 	if x.UDP {
 		fp := newFaultPlan(env.Cfg.Users, env.Cfg.serverAddr().String(), x.Seed)
+		fp.Net = env.Net
 		if x.SetupPlan != nil {
 			x.SetupPlan(fp)
 		}
